@@ -286,6 +286,12 @@ func checkC02(r *core.Run) {
 		{"attribute-name-in-pieces", `<a data-x{{$x := 1}}/='` + S + `'>t</a>`, []string{"zz onmouseover=" + c02Marker + " zz"}, false},
 		{"attribute-name-in-pieces", `<iframe src{{$x := 1}}doc="` + S + `"></iframe>`, []string{c02Marker}, false},
 		{"attribute-name-in-pieces", `<a o{{$x := 1}}nclick="` + S + `">t</a>`, []string{c02Marker}, false},
+		// a helper that completes what the static text before the call leaves open, shared by two call sites
+		{"helper-completes-prefix", `{{define "rest"}}ipt` + S + `{{end}}<a href="/search/%2{{template "rest" $}}">1</a><a href="javascr{{template "rest" $}}">2</a>`, []string{":alert(1)"}, false},
+		{"helper-completes-prefix", `{{define "rest"}}0` + S + `{{end}}<a href="/a%2{{template "rest" $}}">1</a><a href="javascript:{{template "rest" $}}">2</a>`, []string{"alert(1)"}, false},
+		{"helper-completes-prefix", `{{define "sch"}}://h/` + S + `{{end}}<a href="https{{template "sch" $}}">1</a><a href="javascript{{template "sch" $}}">2</a>`, []string{"%0aalert(1)"}, false},
+		{"helper-completes-prefix", `{{define "c"}}:{{end}}<a href="x{{template "c"}}` + S + `">1</a><a href="javascript{{template "c"}}` + S + `">2</a>`, []string{"alert(1)"}, false},
+		{"helper-completes-prefix", `{{define "hp"}}a{{.}}{{end}}<script src="/{{template "hp" $.P0}}"></script><script src="//{{template "hp" $.P1}}"></script>`, []string{"x", c02Marker + ".example"}, false},
 		// a static scheme part after an action that renders nothing
 		{"scheme-part-after-empty-action", `<a href="` + S + `java` + S + `">x</a>`, []string{"", "script:alert(1)"}, false},
 		{"scheme-part-after-empty-action", `<form action="` + S + `javascript` + S + `"></form>`, []string{"", ":alert(1)"}, false},
